@@ -52,4 +52,14 @@ def delete (env : MEnv) (sroot : Bool) (sref : Val) (ignore : Bool) (h : Heap) (
       | (st', .ok _) => (st', .ok target)
       | (st', .error e) => (st', .error e)
 
+/-- `glom(target, (Delete(path, ignore_missing=ignore), readPath))`: a later step of the same chain reads a
+    path back after the deletion (an S-rooted read starts from the frame, `sref`); `none`: the Delete
+    raised, the read never ran -/
+def deleteThenRead (env : MEnv) (sroot : Bool) (sref : Val) (ignore : Bool) (h : Heap) (target : Val)
+    (orig : List Step) (rd : List Step) : (St × Except MErr Val) × Option (Except MErr Nest) :=
+  let out := delete env sroot sref ignore h target orig
+  (out, match out.2 with
+    | .ok r => some (fetch env out.1.heap (C11.readSteps sroot rd) 0 (if sroot then sref else r))
+    | .error _ => none)
+
 end Glom.C12
